@@ -718,7 +718,7 @@ class Engine:
                         for s3, r in self.B.container_call(self, s2, cur, "extend", [rhs], {}):
                             yield s3, (("raise", r) if isinstance(r, ExcVal) else NORMAL)
                         continue
-                    if isinstance(c, SSet) and isinstance(node.op, ast.BitOr):
+                    if isinstance(c, (SSet, self.B.PendingEmpty, self.B.CSet)) and isinstance(node.op, ast.BitOr):
                         for s3, r in self.B.container_call(self, s2, cur, "update", [rhs], {}):
                             yield s3, (("raise", r) if isinstance(r, ExcVal) else NORMAL)
                         continue
